@@ -11,6 +11,8 @@ writers / definitions of mc/ref/c20_ref.py:
            order / task layout, sort flag
   mne      EpochsArray for every shape and every event-code vector
   design   every assignment of grid onsets to 1-3 conditions x TR x volumes x confound table
+           (none, complete, n/a in the first / a middle / the last volume, in two columns at
+           different positions, a column that is all n/a)
   spm      every composition of the scans into runs x filter basis widths x data fills
 
 Scratch files live in one private directory per shard (/dev/shm or the system temp dir) that
@@ -105,6 +107,8 @@ SUFFIXES = [('bold', 'nii.gz', 'func'), ('events', 'tsv', 'func'), ('mask', 'nii
 TABLE_SIBLINGS = [('confounds', 'timeseries'), ('aparcaseg', 'dseg')]
 MRI_SIBLINGS = [('brain', 'mask'), ('aparcaseg', 'dseg')]
 
+CONFOUND_TABLES = ['none', 'two', 'nan_first', 'nan_middle', 'nan_last', 'nan_two_columns',
+                   'nan_first_and_last', 'all_nan']
 MEADOWS_PARTICIPANTS = ['cuddly-bunny', 'able-fly', 'clean-koi']
 
 
@@ -150,7 +154,7 @@ def shards(tier, seed):
     for n_cond in (1, 2, 3):
         for tr in (1.0, 2.0):
             for n_vols in (20, 40):
-                for conf in ('none', 'two', 'three_nan'):
+                for conf in CONFOUND_TABLES:
                     firsts = [[f] for f in range(n_cond + 1)] if thorough else [list(range(n_cond + 1))]
                     for first in firsts:
                         out.append({'part': 'design', 'n_cond': n_cond, 'tr': tr, 'n_vols': n_vols,
@@ -622,6 +626,36 @@ def _mne_case(case, ctx, root):
 COND_NAMES = ['zeta', 'alpha', 'mid']       # first appearance order != sorted order
 
 
+def _confound_table(kind, n_vols, g):
+    """dict column name -> values (table order) for every kind of CONFOUND_TABLES; a missing
+    value (n/a) sits in the first, a middle or the last volume, in one or two columns at
+    different positions of the table, or fills a whole column"""
+    if kind == 'none':
+        return None
+    c1 = np.round(g.normal(size=n_vols), 4)
+    c2 = np.round(np.cumsum(g.normal(size=n_vols)), 4) + 3.0
+    c3 = np.round(g.normal(size=n_vols) * 2.0 - 1.0, 4)
+    d = np.concatenate([[np.nan], np.diff(c1)])
+    mid, last = c3.copy(), c3.copy()
+    mid[n_vols // 2] = np.nan
+    last[n_vols - 1] = np.nan
+    if kind == 'two':
+        return {'trans_x': c1, 'rot_z': c2}
+    if kind in ('nan_first', 'three_nan'):
+        return {'trans_x': c1, 'trans_x_derivative1': d, 'rot_z': c2}
+    if kind == 'nan_middle':
+        return {'trans_x': c1, 'csf': mid, 'rot_z': c2}
+    if kind == 'nan_last':
+        return {'trans_x': c1, 'rot_z': c2, 'csf': last}
+    if kind == 'nan_two_columns':
+        return {'trans_x_derivative1': d, 'trans_x': c1, 'csf': mid, 'rot_z': c2}
+    if kind == 'nan_first_and_last':
+        return {'csf': last, 'trans_x': c1, 'rot_z': c2, 'trans_x_derivative1': d}
+    if kind == 'all_nan':
+        return {'trans_x': c1, 'motion_outlier': np.full(n_vols, np.nan), 'rot_z': c2}
+    raise ValueError(kind)
+
+
 def _design_case(case, ctx):
     import pandas
     from rsatoolbox.io.fmriprep import make_design_matrix
@@ -638,16 +672,8 @@ def _design_case(case, ctx):
     ctx.case(case)
     events = pandas.DataFrame({'onset': onsets, 'duration': [case['dur']] * len(rows), 'trial_type': types})
     g = rng_for(ctx.seed, 'design', n_vols)
-    conf_cols, conf = None, None
-    if case['conf'] != 'none':
-        c1 = np.round(g.normal(size=n_vols), 4)
-        c2 = np.round(np.cumsum(g.normal(size=n_vols)), 4) + 3.0
-        if case['conf'] == 'two':
-            conf_cols = {'trans_x': c1, 'rot_z': c2}
-        else:
-            d = np.concatenate([[np.nan], np.diff(c1)])
-            conf_cols = {'trans_x': c1, 'trans_x_derivative1': d, 'rot_z': c2}
-        conf = pandas.DataFrame(conf_cols)
+    conf_cols = _confound_table(case['conf'], n_vols, g)
+    conf = None if conf_cols is None else pandas.DataFrame(conf_cols)
     want = ref.design_expectation(onsets, types, tr, n_vols,
                                   None if conf_cols is None else [list(v) for v in conf_cols.values()])
     sigp = 'make_design_matrix|conf=%s' % case['conf']
@@ -671,8 +697,10 @@ def _design_case(case, ctx):
                      'value' % (dm.shape[1] - n_pred, want['n_conf']))
         if int(dof) != n_vols - dm.shape[1] or dof != int(dof):
             ctx.fail(sigp + '|dof', case, 'dof %r for %d volumes and %d columns' % (dof, n_vols, dm.shape[1]))
-        if np.isnan(dm).any():
-            ctx.fail(sigp + '|nan', case, 'design matrix holds NaN')
+        if not np.isfinite(dm).all():
+            bad = [c for c in range(dm.shape[1]) if not np.isfinite(dm[:, c]).all()]
+            ctx.fail(sigp + '|non-finite-%s-column' % ('confound' if not mask[bad[0]] else 'condition'),
+                     case, 'design matrix columns %r hold NaN / inf (mask %r)' % (bad, mask.tolist()))
             return
         pred = dm[:, mask]
         for c in range(pred.shape[1]):
